@@ -4,29 +4,48 @@ by construction (the python oracle; it never looks at the Coq model)."""
 import copy
 
 from . import dl, gen_dl
+from . import c15_ast as A
 
 AUX = "c15_aux"          # an extra relation nobody derives: aggregating it can never break stratification
 
 
 # ------------------------------------------------------------------ helpers on the AST
 
-def item_binds(it):
+def _vis(node, visible):
+    """visible=True: only the binders whose variable is not below a parenthesised sub-pattern"""
+    sh = A.shape_of(node)
+    return not (visible and sh is not None and A.shape_hidden(sh))
+
+
+def item_binds(it, visible=False):
     k = it[0]
     if k == "clause":
-        vs = [t[1] for t in it[2] if t[0] in ("v", "p")]
+        vs = [t[1] for t in it[2] if t[0] == "v" or (t[0] == "p" and _vis(t, visible))]
         for c in it[3]:
-            if c[0] != "if":
+            if c[0] != "if" and _vis(c, visible):
                 vs.append(c[1])
         return vs
     if k == "cond":
-        return [] if it[1][0] == "if" else [it[1][1]]
+        return [] if (it[1][0] == "if" or not _vis(it[1], visible)) else [it[1][1]]
     if k == "gen":
-        return [it[1]]
+        return [it[1]] if _vis(it, visible) else []
     if k == "agg":
-        return [it[1]] if it[1] else []
+        return [it[1]] if (it[1] and _vis(it, visible)) else []
     if k == "call":
         return list(it[2])
     return []
+
+
+def used_as_clause_arg(body, x, start):
+    """x is an argument of a clause / negation / aggregate of body[start:] (there a bound x joins, an unbound x binds)"""
+    for it in body[start:]:
+        if it[0] in ("clause", "neg") and any(t[0] in ("v", "p") and t[1] == x for t in it[2]):
+            return True
+        if it[0] == "agg" and any((a[0] == "b" and a[1] == x) or (a[0] == "k" and a[1][0] == "v" and a[1][1] == x) for a in it[5]):
+            return True
+        if it[0] == "call" and x in it[2]:
+            return True
+    return False
 
 
 def rule_sites(p):
@@ -105,6 +124,44 @@ def expanded_rule_rels(p, r):
     return heads, body, aggs
 
 
+# ------------------------------------------------------------------ pattern shapes of a binder
+
+H, W = A.HOLE, A.WILD
+SHAPES = {
+    "paren": ("paren", H),                                   # (x)
+    "paren2": ("paren", ("paren", H)),                       # ((x))
+    "tuple_paren": ("tuple", [("paren", H), W]),             # ((x), _)
+    "ref_paren": ("ref", ("paren", H)),                      # &(x)
+    "paren_tuple": ("paren", ("tuple", [H, W])),             # ((x, _))
+    "paren_ref": ("paren", ("ref", H)),                      # (&x)
+    "tuple": ("tuple", [H, W]),                              # (x, _)       traversed by pattern_get_vars
+    "tuple1": ("tuple", [H]),                                # (x,)
+    "ref": ("ref", H),                                       # &x
+    "at": ("at", W),                                         # x @ _
+}
+# the shapes that type-check in each binder position (the FRONT level does not care, the rustc sample does)
+_NOREF = ["paren", "paren2", "tuple_paren", "paren_tuple", "tuple", "tuple1", "at"]
+SHAPES_FOR = {
+    "let": sorted(SHAPES), "iflet": _NOREF, "gen": _NOREF, "clause_cond": sorted(SHAPES),
+    "agg": ["paren", "paren2", "at"], "pattern": ["paren", "paren2", "ref_paren", "paren_ref", "ref", "at"],
+}
+
+
+def pick_shape(rng, form, p_shaped=0.5):
+    """(name, shape) or (None, None) for the plain identifier; parenthesised shapes are drawn half of the time"""
+    if rng.random() >= p_shaped:
+        return None, None
+    names = SHAPES_FOR[form]
+    hid = [n for n in names if A.shape_hidden(SHAPES[n])]
+    vis = [n for n in names if not A.shape_hidden(SHAPES[n])]
+    name = rng.choice(hid) if (rng.random() < 0.6 or not vis) else rng.choice(vis)
+    return name, SHAPES[name]
+
+
+def with_shape(node, shape):
+    return tuple(node) if shape is None else tuple(node) + (shape,)
+
+
 # ------------------------------------------------------------------ well-formed base programs
 
 def base_program(rng, tag):
@@ -177,10 +234,56 @@ def base_program(rng, tag):
             args[ai] = ("p", args[ai][1])
             r["body"][bi] = ("clause", it[1], args, it[3])
             info["deco"].append("pattern_arg")
+    if rng.random() < 0.25:      # binders written with a (parenthesised / tuple / reference / @) pattern, binding a NEW variable
+        n = 0
+
+        def shape_for(form, body, bi, x):
+            # a variable the helper does not report is bound AGAIN by a later clause that mentions it instead of being joined
+            # (the well-formed face of the finding paren_pattern_escapes_shadow_check; the subject of C07): keep the
+            # parenthesised shapes to variables no later clause mentions
+            for _ in range(8):
+                _, sh = pick_shape(rng, form, 1.0)
+                if not A.shape_hidden(sh) or not used_as_clause_arg(body, x, bi + 1):
+                    return sh
+            return None
+        for _, r in rule_sites(p):
+            for bi, it in enumerate(r["body"]):
+                if n < 2 and rng.random() < 0.5:
+                    if it[0] == "cond" and it[1][0] in ("let", "iflet") and len(it[1]) == 4:
+                        r["body"][bi] = ("cond", with_shape(it[1], shape_for(it[1][0], r["body"], bi, it[1][1])))
+                        n += 1
+                    elif it[0] == "gen" and len(it) == 4:
+                        r["body"][bi] = with_shape(it, shape_for("gen", r["body"], bi, it[1]))
+                        n += 1
+                    elif it[0] == "clause":
+                        args = [with_shape(t, shape_for("pattern", r["body"], bi, t[1])) if (t[0] == "p" and len(t) == 2) else t for t in it[2]]
+                        if args != list(it[2]):
+                            r["body"][bi] = ("clause", it[1], args, it[3])
+                            n += 1
+        if n:
+            info["deco"].append("shaped_binder")
     if rng.random() < 0.4:
         add_macros(rng, p, info)
     if rng.random() < 0.3:
         add_include(rng, p, info)
+    # the struct signature, and attributes at the very top of the text (the parser reads them before it knows whether a
+    # signature follows): in front of the signature they are the struct's, without one the first relation's
+    u = rng.random()
+    if u < 0.3:
+        p["sig"] = []
+        info["deco"].append("sig")
+    elif u < 0.45:
+        p["sig"] = rng.sample(["doc", "allow", "cfg"], rng.choice([1, 2]))
+        info["deco"].append("sig_attrs")
+    else:
+        p["sig"] = None
+    if rng.random() < 0.3 and p["items"][0][0] == "rel":
+        d = p["items"][0]
+        extra = rng.sample(["doc", "allow", "cfg"], rng.choice([1, 2]))
+        if not d[3] and "ds" not in d[4] and rng.random() < 0.3:
+            extra.insert(rng.randrange(len(extra) + 1), "ds")
+        _set_attrs_all_twins(p, d, extra + list(d[4]))
+        info["deco"].append("first_rel_attr" + ("_nosig" if p["sig"] is None else "_sig"))
     return p, info
 
 
@@ -379,50 +482,69 @@ def mut_shadow(rng, p):
     if not sites:
         raise NoSite()
     r, pos, bound = rng.choice(sites)
+    seen = []                   # the binders of body[:pos] that pattern_get_vars reports without a Pat::Paren arm
+    for it in r["body"][:pos]:
+        seen += item_binds(it, visible=True)
     x, y = rng.choice(bound), rng.choice(bound)
     form = rng.choice(["let", "iflet", "gen", "agg", "clause_cond", "pattern"])
     prev_clauses = [bi for bi in range(pos) if r["body"][bi][0] == "clause"]
     if form in ("clause_cond", "pattern") and not prev_clauses:
         form = "let"
+    sname, shape = pick_shape(rng, form)
     if form == "let":
-        r["body"].insert(pos, ("cond", ("let", x, "incs", [y])))
+        r["body"].insert(pos, ("cond", with_shape(("let", x, "incs", [y]), shape)))
     elif form == "iflet":
-        r["body"].insert(pos, ("cond", ("iflet", x, "predpos", [y])))
+        r["body"].insert(pos, ("cond", with_shape(("iflet", x, "predpos", [y]), shape)))
     elif form == "gen":
-        r["body"].insert(pos, ("gen", x, "upto", [y]))
+        r["body"].insert(pos, with_shape(("gen", x, "upto", [y]), shape))
     elif form == "agg":
-        r["body"].insert(pos, ("agg", x, "sum", ["c15z"], AUX, [("b", "c15z")]))
+        r["body"].insert(pos, with_shape(("agg", x, "sum", ["c15z"], AUX, [("b", "c15z")]), shape))
     elif form == "clause_cond":
         bi = rng.choice(prev_clauses)
         it = r["body"][bi]
-        vs = []
+        vs, seen = [], []
         for k in range(bi + 1):
             vs += item_binds(r["body"][k])
+            seen += item_binds(r["body"][k], visible=True)
         if not vs:
             raise NoSite()
         x, y = rng.choice(vs), rng.choice(vs)
-        r["body"][bi] = ("clause", it[1], it[2], list(it[3]) + [("iflet", x, "predpos", [y]) if rng.random() < 0.5 else ("let", x, "incs", [y])])
+        if rng.random() < 0.5:
+            if sname not in SHAPES_FOR["iflet"]:
+                sname, shape = None, None
+            c = with_shape(("iflet", x, "predpos", [y]), shape)
+        else:
+            c = with_shape(("let", x, "incs", [y]), shape)
+        r["body"][bi] = ("clause", it[1], it[2], list(it[3]) + [c])
     else:
         bi = rng.choice(prev_clauses)
         it = r["body"][bi]
         if not it[2]:
+            sname, shape = None, None
             r["body"].insert(pos, ("cond", ("let", x, "incs", [y])))
             form = "let"
         else:
-            vs = []
+            vs, seen2 = [], []
             for k in range(bi):
                 vs += item_binds(r["body"][k])
+                seen2 += item_binds(r["body"][k], visible=True)
             ai = rng.randrange(len(it[2]))
             args = list(it[2])
             vs += [t[1] for j, t in enumerate(args) if j != ai and t[0] in ("v", "p")]
+            seen2 += [t[1] for j, t in enumerate(args) if j != ai and (t[0] == "v" or (t[0] == "p" and _vis(t, True)))]
             if not vs:
+                sname, shape = None, None
                 r["body"].insert(pos, ("cond", ("let", x, "incs", [y])))
                 form = "let"
             else:
                 x = rng.choice(vs)
-                args[ai] = ("p", x)
+                seen = seen2
+                args[ai] = with_shape(("p", x), shape)
                 r["body"][bi] = ("clause", it[1], args, it[3])
-    return dict(cls="shadow", detail=x, form=form)
+    # hidden: the rebinding identifier sits below a parenthesised sub-pattern, or every earlier binder of it does
+    return dict(cls="shadow", detail=x, form=form, shape=sname,
+                hidden=bool((shape is not None and A.shape_hidden(shape)) or x not in seen),
+                hidden_first=bool(x not in seen))
 
 
 def mut_recursive_macro(rng, p):
@@ -523,15 +645,72 @@ def mut_unknown_attr(rng, p):
     return dict(cls="unknown_attr", detail=None)
 
 
+def _some_oattrs(rng):
+    """one or two outer attributes: a doc comment, attributes rustc knows (allow, cfg), ascent's own ds, a made-up one"""
+    return [rng.choice(A.OATTR_KINDS) for _ in range(rng.choice([1, 1, 2]))]
+
+
 def mut_unexpected_attr(rng, p):
+    """attributes on a rule / macro definition / include_source!, wherever the item stands"""
     sites = [(cont, i) for cont in [p["items"]] + list(p["sources"].values()) for i, it in enumerate(cont) if it[0] in ("rule", "macro", "include")]
     if not sites:
         raise NoSite()
     cont, i = rng.choice(sites)
     it = list(cont[i])
-    it[1] = rng.choice([1, 1, 2])
+    it[1] = _some_oattrs(rng)
     cont[i] = tuple(it)
-    return dict(cls="unexpected_attr", detail=None, on=it[0])
+    return dict(cls="unexpected_attr", detail=None, on=it[0], attrs=it[1], first=(cont is p["items"] and i == 0), sig=p.get("sig") is not None)
+
+
+def _attr_at_position(rng, p, first, sig):
+    """the POSITION dimension of the class: the attributed rule / macro definition / include_source! is the FIRST item of
+    the program or a later one, and the program has a struct signature or none.  (The parser reads the outer attributes
+    at the top before it knows whether a signature follows; without one they must go to the first item WHATEVER it is.)"""
+    on = rng.choice(["rule", "rule", "macro", "include"])
+    kinds = _some_oattrs(rng)
+    items = p["items"]
+    item = None
+    if on == "rule":
+        cands = [i for i, it in enumerate(items) if it[0] == "rule"]
+        if cands and rng.random() < 0.6:
+            item = items.pop(rng.choice(cands))           # rules may precede the declarations: order of items is free
+            item = ("rule", kinds, item[2])
+        else:
+            item = ("rule", kinds, dict(heads=[(AUX, [("c", 3)])], body=[]))
+    elif on == "macro":
+        cands = [i for i, it in enumerate(items) if it[0] == "macro"]
+        if cands and rng.random() < 0.6:
+            item = items.pop(rng.choice(cands))
+            item = ("macro", kinds) + tuple(item[2:])
+        else:
+            item = ("macro", kinds, "c15_pm", ["q0"], [("clause", AUX, [("v", "q0")], [])])
+    else:
+        p["sources"]["c15_psrc"] = [("rel", "c15_pinc", ["i32"], False, [])]
+        item = ("include", kinds, "c15_psrc")
+    if sig is True:
+        if p.get("sig") is None:
+            p["sig"] = rng.choice([[], [], ["doc"], ["allow", "cfg"]])
+    elif sig is False:
+        p["sig"] = None
+    if first:
+        items.insert(0, item)
+    else:
+        if not items:
+            raise NoSite()
+        items.insert(rng.randrange(1, len(items) + 1), item)
+    return dict(cls="unexpected_attr", detail=None, on=on, attrs=kinds, first=first, sig=p.get("sig") is not None)
+
+
+def mut_attr_first_nosig(rng, p):
+    return _attr_at_position(rng, p, True, False)
+
+
+def mut_attr_first_sig(rng, p):
+    return _attr_at_position(rng, p, True, True)
+
+
+def mut_attr_later(rng, p):
+    return _attr_at_position(rng, p, False, rng.choice([True, False, None]))
 
 
 def mut_irp(rng, p):
@@ -607,6 +786,9 @@ MUTATIONS = {
     "ds_on_lattice": (mut_ds_on_lattice, 5, True),
     "unknown_attr": (mut_unknown_attr, 5, True),
     "unexpected_attr": (mut_unexpected_attr, 5, True),
+    "attr_first_nosig": (mut_attr_first_nosig, 6, True),
+    "attr_first_sig": (mut_attr_first_sig, 3, True),
+    "attr_later": (mut_attr_later, 3, True),
     "multiple_ds": (mut_multiple_ds, 5, False),
     "irp_serial": (mut_irp, 4, False),
     "undefined_macro": (mut_undefined_macro, 3, False),
